@@ -2,15 +2,30 @@
 
 package paths
 
-import "github.com/compose-spec/compose-go/v2/tree"
+import (
+	"sync"
 
-// VerifResolverKeys holds the pattern keys of the last resolver table built (verification builds only).
-var VerifResolverKeys []string
+	"github.com/compose-spec/compose-go/v2/tree"
+)
+
+var (
+	verifMu           sync.Mutex
+	verifResolverKeys []string
+)
+
+// VerifResolverKeys returns the pattern keys of the last resolver table built (verification builds only).
+func VerifResolverKeys() []string {
+	verifMu.Lock()
+	defer verifMu.Unlock()
+	return append([]string{}, verifResolverKeys...)
+}
 
 func verifTable(m map[tree.Path]resolver) {
 	keys := make([]string, 0, len(m))
 	for k := range m {
 		keys = append(keys, string(k))
 	}
-	VerifResolverKeys = keys
+	verifMu.Lock()
+	verifResolverKeys = keys
+	verifMu.Unlock()
 }
